@@ -91,7 +91,25 @@ def np_clip(eng, args, kwargs, node):
     return eng.call(eng.builtins()['min'], [mx, hi], {})
 
 
-TABLE = {'numpy.fromiter': np_fromiter, 'numpy.array': np_array, 'numpy.searchsorted': np_searchsorted,
+def np_prod(eng, args, kwargs, node):
+    """numpy.prod of a python list / 1-D array: the product of its elements over the reals (A3: no rounding)"""
+    tot = 1
+    for x in _items(eng, args[0]):
+        tot = eng.binop(ast.Mult(), tot, x)
+    return tot
+
+
+def np_power(eng, args, kwargs, node):
+    base, ex = args[0], concretize(args[1])
+    if is_sym(ex) or not isinstance(ex, int) or isinstance(ex, bool):
+        raise Unsupported('numpy.power with a symbolic / non-integer exponent')
+    tot = 1
+    for _ in range(abs(ex)):
+        tot = eng.binop(ast.Mult(), tot, base)
+    return tot if ex >= 0 else eng.binop(ast.Div(), 1, tot)
+
+
+TABLE = {'numpy.prod': np_prod, 'numpy.power': np_power, 'numpy.fromiter': np_fromiter, 'numpy.array': np_array, 'numpy.searchsorted': np_searchsorted,
          'numpy.argsort': np_argsort, 'numpy.max': np_max, 'numpy.min': np_min, 'numpy.clip': np_clip}
 CONST = {'numpy.int64': 'int64', 'numpy.uint64': 'uint64', 'numpy.int32': 'int32', 'numpy.float64': 'float64'}
 
